@@ -153,6 +153,10 @@ namespace cppcms {
 						if(*buffer!='\n')
 							return parsing_error;
 						state_=expecting_crlfcrlf;
+						// the CRLF that ends the delimiter line is the first half of the CRLFCRLF
+						// that ends the headers: a part without headers starts its content right
+						// after the next CRLF
+						position_=2;
 						break;
 					case expecting_crlfcrlf:
 						header_+=*buffer;
